@@ -1,7 +1,7 @@
 """C18 (type-customisation hooks), C19 (pvl.new), C20 (command-line tools)."""
 import ast
 
-from .core import Finding, AnalysisError, norm
+from .core import Finding, AnalysisError, norm, dict_entries
 from . import tokproto
 
 FORBIDDEN_CTORS = {"float", "Decimal", "Quantity", "Units", "PVLModule", "PVLGroup", "PVLObject", "PVLAggregation",
@@ -87,11 +87,41 @@ def rule_h1(repo, res):
     if not ok:
         res.add(Finding("H1", "PVLParser.parse_module", "self.modcls()", "parse_module no longer builds the caller's module class",
                         where=f"pvl/parser.py:{pm.lineno}"))
-    ac = repo.method("PVLParser", "aggregation_cls")
-    rets = [norm(r.value) for r in ast.walk(ac) if isinstance(r, ast.Return)]
-    ok = rets == ["self.grpcls()", "self.objcls()"]
-    src = norm(ac, 3000)
-    ok = ok and src.index("group_keywords") < src.index("self.grpcls()") < src.index("object_keywords") < src.index("self.objcls()")
+    from . import canon
+    repo.method("PVLParser", "aggregation_cls")
+    ac = canon.canon_method(repo, "PVLParser", "aggregation_cls")
+    # each return of the function itself (not of a nested def) and the grammar tables its guards consult:
+    # enclosing `if` tests and `for` iterables on the way to the return
+    par = {}
+    for n in ast.walk(ac):
+        for ch in ast.iter_child_nodes(n):
+            par[ch] = n
+    rets, guards = [], {}
+    for r in ast.walk(ac):
+        if not isinstance(r, ast.Return) or r.value is None:
+            continue
+        p, inner, tabs = par.get(r), False, set()
+        child = r
+        while p is not None and p is not ac:
+            if isinstance(p, (ast.FunctionDef, ast.Lambda)):
+                inner = True
+            g = None
+            if isinstance(p, ast.If) and child in p.body:
+                g = p.test
+            elif isinstance(p, ast.For) and child in p.body:
+                g = p.iter
+            if g is not None:
+                for x in ast.walk(g):
+                    if isinstance(x, ast.Attribute) and norm(x.value) == "self.grammar":
+                        tabs.add(x.attr)
+                    # a local predicate (nested def / lambda) that closes over nothing but the begin keyword is followed
+            child, p = p, par.get(p)
+        if inner:
+            continue
+        rets.append(norm(r.value))
+        guards.setdefault(norm(r.value), set()).update(tabs)
+    ok = sorted(set(rets)) == ["self.grpcls()", "self.objcls()"] and guards.get("self.grpcls()") == {"group_keywords"} \
+        and guards.get("self.objcls()") == {"object_keywords"}
     res.oblige("H1", "PVLParser.aggregation_cls: group keywords -> self.grpcls(), object keywords -> self.objcls()", ok=ok)
     if not ok:
         res.add(Finding("H1", "PVLParser.aggregation_cls", "keyword -> class", f"aggregation_cls returns {rets}: groups and objects "
@@ -352,10 +382,10 @@ def rule_tb9(repo, res):
     """formats / dialects dispatch tables."""
     tr = repo.module("pvl_translate")
     f = tr.assigns.get("formats")
-    if not isinstance(f, ast.Call):
+    if f is None or dict_entries(f) is None:
         raise AnalysisError("anchor vanished: pvl_translate.formats")
     want = {"PDS3": "PDSLabelEncoder", "ODL": "ODLEncoder", "ISIS": "ISISEncoder", "PVL": "PVLEncoder"}
-    got = {k.arg: k.value for k in f.keywords}
+    got = dict(dict_entries(f))
     for name, enc in want.items():
         v = got.get(name)
         ok = isinstance(v, ast.Call) and norm(v.func) == "PVLWriter" and len(v.args) == 1 and isinstance(v.args[0], ast.Call) \
@@ -394,15 +424,10 @@ def rule_tb9(repo, res):
     m = tr.functions.get("main")
     if m is None:
         raise AnalysisError("anchor vanished: pvl_translate.main")
-    loaded = [n for n in ast.walk(m) if isinstance(n, ast.Assign) and norm(n.value) == "pvl.load(args.infile)" and isinstance(n.targets[0], ast.Name)]
-    ok = False
-    if len(loaded) == 1:
-        var = loaded[0].targets[0].id
-        ok = any(isinstance(n, ast.Call) and norm(n.func) == "formats[args.output_format].dump" and
-                 [norm(a) for a in n.args] == [var, "args.outfile"] and not n.keywords for n in ast.walk(m))
-    else:
-        ok = any(isinstance(n, ast.Call) and norm(n.func) == "formats[args.output_format].dump" and
-                 [norm(a) for a in n.args] == ["pvl.load(args.infile)", "args.outfile"] for n in ast.walk(m))
+    from . import canon
+    cm = canon.canon_function(repo, "pvl_translate", "main", keep=("args",))       # named temporaries substituted
+    ok = any(isinstance(n, ast.Call) and norm(n.func) == "formats[args.output_format].dump" and
+             [norm(a) for a in n.args] == ["pvl.load(args.infile)", "args.outfile"] and not n.keywords for n in ast.walk(cm))
     ok = ok and not any(isinstance(n, ast.Try) for n in ast.walk(m))
     res.oblige("F1", "pvl_translate.main: pvl.load(infile) -> formats[fmt].dump(module, outfile), no exception handling in between", ok=ok)
     if not ok:
@@ -426,7 +451,7 @@ def rule_tb9(repo, res):
                  "ISIS": ("OmniParser", "ISISGrammar", "OmniDecoder", "ISISEncoder"),
                  "Omni": ("OmniParser", "OmniGrammar", "OmniDecoder", "PVLEncoder")}
     d = va.assigns.get("dialects")
-    rows = {k.arg: k.value for k in d.keywords} if isinstance(d, ast.Call) else {}
+    rows = dict(dict_entries(d) or []) if d is not None else {}
     for rname, (pc, gc, dc, ec) in want_rows.items():
         row = rows.get(rname)
         ok = isinstance(row, ast.Call)
@@ -539,24 +564,61 @@ def rule_l1(repo, res):
     loops = [n for n in m.body if isinstance(n, ast.For)]
     ok = len(loops) == 1 and norm(loops[0].iter) == "args.file" and \
         sum(1 for s in loops[0].body if isinstance(s, ast.Expr) and "results_list.append" in norm(s)) == 1
-    inner_ok = False
+    inner_ok = fresh_ok = False
     if ok:
-        fvar = norm(loops[0].target)
-        texts = [norm(s.targets[0]) for s in loops[0].body if isinstance(s, ast.Assign) and norm(s.value) == f"pvl.get_text_from({fvar})"]
-        for s in loops[0].body:
-            if isinstance(s, ast.For) and norm(s.iter) == "dialects.items()" and isinstance(s.target, ast.Tuple) and len(s.target.elts) == 2:
-                k, v = norm(s.target.elts[0]), norm(s.target.elts[1])
-                for x in ast.walk(s):
-                    if isinstance(x, ast.Call) and norm(x.func) == "pvl_flavor" and texts and \
-                            [norm(a) for a in x.args] == [texts[0], k, v, fvar, "args.verbose"]:
-                        # stored under the dialect's name
-                        par = getattr(x, "_parent", None)
-                        if isinstance(par, ast.Assign) and isinstance(par.targets[0], ast.Subscript) and norm(par.targets[0].slice) == k:
+        lp = loops[0]
+        fvar = norm(lp.target)
+        texts = [norm(s.targets[0]) for s in lp.body if isinstance(s, ast.Assign) and norm(s.value) == f"pvl.get_text_from({fvar})"]
+        texts.append(f"pvl.get_text_from({fvar})")
+
+        def flavor_call(x, k, v):
+            return isinstance(x, ast.Call) and norm(x.func) == "pvl_flavor" and not x.keywords and len(x.args) == 5 \
+                and norm(x.args[0]) in texts and [norm(a) for a in x.args[1:]] == [k, v, fvar, "args.verbose"]
+
+        def all_rows_comp(e):
+            """{k: pvl_flavor(text, k, v, f, args.verbose) for k, v in dialects.items()}"""
+            if not (isinstance(e, ast.DictComp) and len(e.generators) == 1):
+                return False
+            g = e.generators[0]
+            if g.ifs or norm(g.iter) != "dialects.items()" or not (isinstance(g.target, ast.Tuple) and len(g.target.elts) == 2):
+                return False
+            k, v = norm(g.target.elts[0]), norm(g.target.elts[1])
+            return norm(e.key) == k and flavor_call(e.value, k, v)
+        # what is appended for the file: (f, R)
+        app = [s.value for s in lp.body if isinstance(s, ast.Expr) and isinstance(s.value, ast.Call) and norm(s.value.func) == "results_list.append"]
+        R = None
+        if len(app) == 1 and len(app[0].args) == 1 and isinstance(app[0].args[0], ast.Tuple) and len(app[0].args[0].elts) == 2 \
+                and norm(app[0].args[0].elts[0]) == fvar:
+            R = app[0].args[0].elts[1]
+        if R is not None and all_rows_comp(R):
+            inner_ok = fresh_ok = True
+        elif isinstance(R, ast.Name):
+            # R must be bound anew inside the per-file loop (a dict created once outside it is shared by every file's entry)
+            binds = [s for s in lp.body if isinstance(s, ast.Assign) and any(norm(t) == R.id for t in s.targets)]
+            if len(binds) == 1:
+                bv = binds[0].value
+                if all_rows_comp(bv):
+                    inner_ok = fresh_ok = True
+                elif (isinstance(bv, ast.Call) and norm(bv.func) in ("dict", "OrderedDict") and not bv.args and not bv.keywords) \
+                        or (isinstance(bv, ast.Dict) and not bv.keys):
+                    fresh_ok = True
+            for s in lp.body:
+                if isinstance(s, ast.For) and norm(s.iter) == "dialects.items()" and isinstance(s.target, ast.Tuple) and len(s.target.elts) == 2 \
+                        and not any(isinstance(x, (ast.Break, ast.Continue, ast.If)) for x in ast.walk(s)):
+                    k, v = norm(s.target.elts[0]), norm(s.target.elts[1])
+                    for st in s.body:
+                        if isinstance(st, ast.Assign) and len(st.targets) == 1 and isinstance(st.targets[0], ast.Subscript) \
+                                and norm(st.targets[0].value) == R.id and norm(st.targets[0].slice) == k and flavor_call(st.value, k, v):
                             inner_ok = True
     res.oblige("L1", "pvl_validate.main: for every file, every dialect row is evaluated and one result is appended", ok=ok and inner_ok)
     if not (ok and inner_ok):
         res.add(Finding("L1", "pvl_validate.main", "per-file loop", "main no longer evaluates every dialect for every file with one "
                         "result per file", where=f"pvl/pvl_validate.py:{m.lineno}"))
+    res.oblige("L1", "pvl_validate.main: the per-file results mapping is created anew for every file", ok=(not ok) or fresh_ok)
+    if ok and not fresh_ok:
+        res.add(Finding("L1", "pvl_validate.main", "per-file results object", "the mapping of verdicts appended for a file is not created "
+                        "inside the per-file loop: every file's entry is the same object and the report shows the last file's verdicts "
+                        "for all files", where=f"pvl/pvl_validate.py:{m.lineno}"))
     pr = [s for s in m.body if isinstance(s, ast.Expr) and norm(s.value).startswith("print(report(results_list, list(dialects.keys())))")]
     res.oblige("L1", "pvl_validate.main prints report(results_list, list(dialects.keys())) unconditionally", ok=bool(pr))
     if not pr:
